@@ -575,8 +575,32 @@ def chains(ctx, cname):
                     validate(ctx, cid, cname + '.prod', dict(cls=cname, op='prod', n=n, g=gn.split('|')[0]), v, kind, 1)
 
 
+def elements(ctx):
+    """operands taken out of a multi-valued object by every kind of index (Python int, negative, NumPy integers as argmin / arange give them,
+    slices, iteration): the element and everything composed from it is a valid member"""
+    import spatialmath as sm
+    import operator
+    vals = {'SO2': [ref.rot2(0.3 + 0.4 * i) for i in range(3)], 'SE2': [ref.rt(ref.rot2(0.3 + 0.4 * i), (1.0 + i, -2.0)) for i in range(3)],
+            'SO3': [ref.rotx(0.3 + 0.4 * i) @ ref.roty(0.2) for i in range(3)], 'SE3': [ref.rt(ref.rotx(0.3 + 0.4 * i) @ ref.roty(0.2), (1.0 + i, -2.0, 0.5)) for i in range(3)]}
+    vals['UQ'] = [ref.r2q_ref(R) for R in vals['SO3']]
+    IDX = [('1', lambda: 1), ('-1', lambda: -1), ('np.int64(1)', lambda: np.int64(1)), ('np.int32(2)', lambda: np.int32(2)), ('np.intp(0)', lambda: np.intp(0)),
+           ('argmax', lambda: np.argmax([0.1, 0.7, 0.3])), ('arange[-1]', lambda: np.arange(3)[-1]), ('slice(1,2)', lambda: slice(1, 2)), ('slice(0,3,2)', lambda: slice(0, 3, 2))]
+    for kind, C in (('SO2', sm.SO2), ('SE2', sm.SE2), ('SO3', sm.SO3), ('SE3', sm.SE3), ('UQ', sm.UnitQuaternion)):
+        mk = lambda: C([v.copy() for v in vals[kind]])
+        Y = C(vals[kind][2].copy())
+        takes = [(n, (lambda X, f=f: X[f()])) for n, f in IDX] + [('iter[1]', lambda X: list(X)[1]), ('reversed[0]', lambda X: list(reversed(X))[0])]
+        for tn, take in takes:
+            nexp = 2 if tn == 'slice(0,3,2)' else 1
+            ops = [('itself', lambda e: e), ('inv', lambda e: e.inv()), ('e*Y', lambda e: e * Y), ('Y*e', lambda e: Y * e), ('e*e', lambda e: e * e), ('e**2', lambda e: e ** 2)]
+            if kind != 'UQ' or True:
+                ops.append(('Y/e', lambda e: Y / e))
+            for on, op in ops:
+                cid = 'C01/%s/element/%s/%s' % (kind, tn, on)
+                run(ctx, cid, '%s.getitem' % C.__name__, dict(cls=kind, index=tn, op=on), kind, (lambda take=take, op=op: op(take(mk()))), key=cid, expect_n=nexp)
+
+
 def shards(tier, seed):
-    out = [('base3d',), ('axis',), ('classaxis',), ('norminterp',)]
+    out = [('base3d',), ('axis',), ('classaxis',), ('norminterp',), ('elements',)]
     n = 8 if tier == 'quick' else 32
     out += [('rpyeul', k, n) for k in range(n)]
     for c in ('SO2', 'SE2', 'SO3', 'SE3', 'UnitQuaternion'):
@@ -590,6 +614,8 @@ def run_shard(ctx, shard):
     k = shard[0]
     if k == 'base3d':
         ctor_base3d(ctx)
+    elif k == 'elements':
+        elements(ctx)
     elif k == 'axis':
         ctor_axis(ctx)
     elif k == 'classaxis':
